@@ -247,6 +247,17 @@ Theorem C05_object_history : forall s p ops, forallb (res_on p) ops = true -> nt
 Proof. exact object_history. Qed.
 Print Assumptions C05_object_history.
 
+(* a sliced basket is a view over the same objects: basket[p:].rc() reverse-complements exactly the objects at positions >= p,
+   basket[:p+1].complement() complements exactly those at positions <= p (objects listed once) *)
+Theorem C05_slice_view : forall s p arg q, NoDup (bask s) -> q < length (bask s) -> nth q (bask s) 0 < length (heap s) ->
+  cell (heap (step s (18%N, p, arg))) (nth q (bask s) 0) =
+    (if p <=? q then rc (cell (heap s) (nth q (bask s) 0)) else cell (heap s) (nth q (bask s) 0)) /\
+  cell (heap (step s (19%N, p, arg))) (nth q (bask s) 0) =
+    (if q <=? p then complement (cell (heap s) (nth q (bask s) 0)) else cell (heap s) (nth q (bask s) 0)) /\
+  bask (step s (18%N, p, arg)) = bask s /\ bask (step s (19%N, p, arg)) = bask s.
+Proof. exact slice_view. Qed.
+Print Assumptions C05_slice_view.
+
 (* the harness compares every intermediate state; the last one is run_ops *)
 Theorem C05_trace_last : forall s ops, last (trace s ops) s = run_ops s ops /\ length (trace s ops) = length ops.
 Proof. exact trace_last. Qed.
